@@ -27,7 +27,10 @@ inductive Spec where
   | timeout (inner : Inner) (limit : Nat)
   | interval (start period n work : Nat)
   | noise                  -- a task woken repeatedly from another thread; it owns no timer
-  | busyIo                 -- a task completing cheap I/O until the others are done; it owns no timer
+  | busyIo                 -- a task completing cheap I/O (`z`) or yielding (`y`) until the others are done; it owns no timer
+  /-- timers sharing one deadline: create A(d), B(d), poll B, drop A, create C(d), drop C at once
+  (`keep = false`) or when B is done; the task waits for B -/
+  | shared (d : Nat) (keep : Bool)
   /-- interval whose `tick()` futures are, per character of the pattern, `d` awaited to completion,
   `p` polled once and dropped, `t` wrapped in a 2 ms `timeout` -/
   | intervalCancel (start period : Nat) (pattern : List Char)
@@ -51,6 +54,7 @@ inductive Task where
   | init (s : Spec)
   | inCancel (iv : Interval) (pat : List Char) (count : Nat) (cur : Option TickWait)
   | sleeping (slp : Sleep)
+  | sharedWait (b : Sleep) (c : Option Sleep)
   | inTimeout (innerNever : Bool) (inner : Option Sleep) (slp : Sleep)
   | inInterval (iv : Interval) (slp : Sleep) (ph : Phase) (ticks : List Nat) (left work : Nat)
   | done (token : String)
@@ -122,6 +126,29 @@ def trans (w : Wheel) (now id : Nat) : Task → Wheel × Task × Bool
     match Sleep.new w now d with
     | (w', some s) => (w', .sleeping s, true)
     | (w', none) => (w', .done "panic", false)
+  | .init (.shared d keep) =>
+    match Sleep.new w now d with
+    | (w1, some a) =>
+      match Sleep.new w1 now d with
+      | (w2, some b) =>
+        let w3 := (Sleep.poll w2 b id).1
+        let w4 := Sleep.drop w3 a
+        match Sleep.new w4 now d with
+        | (w5, some c) =>
+          if keep then (w5, .sharedWait b (some c), true)
+          else (Sleep.drop w5 c, .sharedWait b none, true)
+        | (w5, none) => (w5, .done "panic", false)
+      | (w2, none) => (w2, .done "panic", false)
+    | (w1, none) => (w1, .done "panic", false)
+  | .sharedWait b c =>
+    match Sleep.poll w b id with
+    | (w', true) =>
+      let w1 := Sleep.drop w' b
+      let w2 := match c with
+        | some c => Sleep.drop w1 c
+        | none => w1
+      (w2, .done "fired", false)
+    | (w', false) => (w', .sharedWait b c, false)
   | .init (.dropped d polled) =>
     match Sleep.new w now d with
     | (w', some s) =>
@@ -263,6 +290,8 @@ def parseSpec (s : String) : Option Spec :=
     | _, _ => none
   | ["n", _count, _every] => some .noise
   | ["z"] => some .busyIo
+  | ["y"] => some .busyIo
+  | ["e", d, k] => (parseOff d).map fun d => .shared d (k == "1")
   | ["ic", st, p, pat] =>
     match parseOff st, p.toNat? with
     | some st, some p => some (.intervalCancel st p pat.toList)
